@@ -34,12 +34,12 @@ func funcFullName(f *ssa.Function) string {
 }
 
 func (eng *Engine) modelFor(f *ssa.Function) *model {
-	if f.Pkg != nil && strings.HasPrefix(f.Pkg.Pkg.Path(), modulePath) {
-		return nil
-	}
 	n := funcFullName(f)
 	if m, ok := eng.models[n]; ok {
 		return m
+	}
+	if f.Pkg != nil && strings.HasPrefix(f.Pkg.Pkg.Path(), modulePath) {
+		return nil
 	}
 	// package-wide models
 	pkg := ""
@@ -86,6 +86,18 @@ func (eng *Engine) initModels() {
 	} {
 		reg(n, pureFresh("string formatting/parsing, time and similar library calls return unconstrained values and write nothing"))
 	}
+	for _, k := range []struct {
+		name string
+		n    int
+	}{{"(net.IP).To4", 4}, {"(net.IP).To16", 16}} {
+		k := k
+		reg(k.name, func(fr *Frame, b *ssa.BasicBlock, f *ssa.Function, c *ssa.CallCommon, args []Val, st *State, reach string, pos token.Pos) *Val {
+			fr.vc.trust("model: net.IP.To4/To16 return nil or a slice of length 4/16 with unconstrained contents")
+			res := fr.freshResults(c, st, f.Name())
+			fr.vc.assume(sOr(sEq(app("g_sarr", res[0].S), bvConst(0, 64)), sEq(app("g_slen", res[0].S), bvConst(uint64(k.n), 64))))
+			return packResults(c, res)
+		})
+	}
 	errFresh := func(fr *Frame, b *ssa.BasicBlock, f *ssa.Function, c *ssa.CallCommon, args []Val, st *State, reach string, pos token.Pos) *Val {
 		vc := fr.vc
 		vc.trust("model: fmt.Errorf/errors.New return a fresh non-nil error whose dynamic type is a library error type (never a module type)")
@@ -109,6 +121,7 @@ func (eng *Engine) initModels() {
 		fr.vc.trust("floating point: uninterpreted")
 		return &Val{T: types.Typ[types.Float64], S: app("g_fceil", args[0].S)}
 	})
+	eng.initBufModels()
 	reg("math.Floor", func(fr *Frame, b *ssa.BasicBlock, f *ssa.Function, c *ssa.CallCommon, args []Val, st *State, reach string, pos token.Pos) *Val {
 		fr.vc.eng.needFloat()
 		fr.vc.trust("floating point: uninterpreted")
